@@ -4,6 +4,8 @@ CONSTANTS
   Menu <- MenuAll
   VarMenu <- VarQuick
   VarVersions <- VarVersionsQuick
+  HistMenu <- HistAll
+  HistVersions <- HistVersionsQuick
   MultiMenu <- MultiQuick
   TripleMenu <- TripleQuick
   MaxItems = 2
